@@ -42,7 +42,14 @@ fn main() {
             v => cps_to_string(&serde_json::from_value::<Cps>(v.clone()).expect("q code points")),
         };
         let doc: Value = if let Some(n) = case["doc"].get("nest") {
-            nested(case["doc"]["kind"].as_str().unwrap_or("arr"), n.as_u64().unwrap())
+            let kind = case["doc"]["kind"].as_str().unwrap_or("arr");
+            if let Some(k) = kind.strip_prefix("pair") {
+                // two EQUAL deep documents side by side
+                let d = nested(k, n.as_u64().unwrap());
+                json!([d.clone(), d])
+            } else {
+                nested(kind, n.as_u64().unwrap())
+            }
         } else if case["doc"].is_null() {
             json!({"a": [1, 2, {"b": "x"}], "b": "a"})
         } else {
